@@ -2,6 +2,7 @@ package object
 
 import (
 	"fmt"
+	"math"
 	"math/bits"
 	"runtime"
 	"runtime/debug"
@@ -25,7 +26,24 @@ func SizeOk(n int) (bool, int64) {
 		return true, 0
 	}
 	free := FreeMemory()
+	if int64(n) > math.MaxInt64/ObjectSize { // the size in bytes would overflow (and wrap to something small).
+		return false, free
+	}
 	return ((free >= 0) && ((int64(n) * ObjectSize) < free)), free
+}
+
+// MulLen returns n*count as an int and true when both are non negative and the product
+// doesn't overflow int; 0 and false otherwise. Use it to compute the size of a repeated
+// string or array before checking that size with [MustBeOk].
+func MulLen(n int, count int64) (int, bool) {
+	if n < 0 || count < 0 {
+		return 0, false
+	}
+	hi, lo := bits.Mul64(uint64(n), uint64(count))
+	if hi != 0 || lo > math.MaxInt {
+		return 0, false
+	}
+	return int(lo), true //nolint:gosec // checked just above.
 }
 
 func MustBeOk(n int) {
